@@ -21,16 +21,17 @@ LEAN_MODULES = ['GnpyProofs.Props.C14']
 THEOREMS = [f'Gnpy.Slots.{t}' for t in (
     'step_blocked_unchanged', 'step_accept_free', 'step_slots_disjoint', 'step_marks_exactly', 'served_cellAt',
     'same_on_all_oms', 'enough_slots', 'step_preserves_wf', 'run_spec', 'history_no_overlap', 'occupancy_is_union',
-    'run_preserves_wf', 'first_fit_lowest', 'last_fit_highest', 'user_fixed_honoured', 'user_fixed_membership', 'reserved_check', 'create_wf',
+    'run_preserves_wf', 'first_fit_lowest', 'last_fit_highest', 'fixed_free_granted', 'user_fixed_honoured', 'user_fixed_membership', 'reserved_check', 'create_wf',
     'stateWF_of_create', 'assignSpectrum_ok', 'assignSpectrum_of', 'spectrumSelection_sound', 'spectrumSelection_first', 'spectrumSelection_last',
     'determineSlotNumbers_pos', 'determineSlotNumbers_fixed', 'nmLoop_spec', 'aggregate_spec', 'restoreOrder_perm',
     'applyPath_spec', 'restoreOrder_positional')] + ['Gnpy.Py.sorted_pairwise', 'Gnpy.Py.sorted_perm']
 PARTIAL = []
 MANIFEST = {
-    'text': '33 Lean 4 theorems over the executable model of spectrum_assignment.py: run_spec / history_no_overlap / '
+    'text': '34 Lean 4 theorems over the executable model of spectrum_assignment.py: run_spec / history_no_overlap / '
             'occupancy_is_union by induction over ANY request list on any well-formed OMS set; step_blocked_unchanged, '
             'step_accept_free, step_marks_exactly, same_on_all_oms, enough_slots, first_fit_lowest (+ last_fit_highest), '
-            'user_fixed_honoured (positional, through order_slots/restore_order), reserved_check; create_wf / '
+            'user_fixed_honoured (positional, through order_slots/restore_order), fixed_free_granted (a free fixed (N, M) is '
+            'accepted), reserved_check; create_wf / '
             'stateWF_of_create show the hypotheses are what build_oms_list produces. The model is tied to the code after '
             'EVERY pth_assign_spectrum call (all bitmaps, N, M, blocking reason, exact) and a ledger-based monitor runs '
             'on the implementation.',
@@ -1097,7 +1098,7 @@ def shrink_candidates(case):
 def exhaustive():
     """ALL histories of length <= 2 over an alphabet of 60 requests, and all histories of length 3 over a sub-alphabet of
     18, on 2 OMS x 17 slots (n = -8..8, guard band one grid step), from two initial states; both policies for length 1;
-    same-route pairs additionally as one pth_assign_spectrum call, half of the triples as one call."""
+    same-route pairs additionally as one pth_assign_spectrum call and with last_fit, half of the triples as one call."""
     f_min, f_max, gb = ANCHOR - 8 * GRID, ANCHOR + 8 * GRID, GRID
 
     def oms(cells0, cells1):
@@ -1128,8 +1129,9 @@ def exhaustive():
         for a in alphabet:
             for b in alphabet:
                 yield mk([a, b], st, 'first_fit')
-                if a[0] == b[0]:                       # same route: also as ONE pth_assign_spectrum call
+                if a[0] == b[0]:                       # same route: also as ONE pth_assign_spectrum call, and last fit
                     yield mk([a, b], st, 'first_fit', one_call=True)
+                    yield mk([a, b], st, 'last_fit', one_call=(a[1] + b[1]) % 2 == 0)
         for a in small:
             for b in small:
                 for c in small:
